@@ -163,8 +163,11 @@ def main():
                                                     (":overlapping-arcs" if p["kind"] == "overlap" else ":tangential-input"))
         if strategy == "geometric" and transversal:
             tight = 2 * (lipschitz(n1) + lipschitz(n2)) * newton * Fr(3, 2) + 64 * (d1 + d2 + 2) * C.U * size
-        for c in range(ncol):
-            s, t = Fr(float(out[0, c])), Fr(float(out[1, c]))
+        fcols, nonfinite = C.finite_cols(out)
+        if nonfinite:
+            res.failure("param-not-finite", "%s %s (%s, %s): NaN / infinite parameter in %s" %
+                        (route, strategy, p["kind"], p["tag"], out.tolist()), rc)
+        for c, (s, t) in enumerate(fcols):
             if not (0 <= s <= 1 and 0 <= t <= 1):
                 res.failure("param-out-of-range", "%s %s: column %d = (%s, %s) outside [0,1]^2" %
                             (route, strategy, c, float(s).hex(), float(t).hex()), rc)
